@@ -254,7 +254,7 @@ for _pid in ("C03", "C11", "C14", "C15", "C18", "C19"):
 
 # T5: the straight-line functions above the kernels are regenerated (Gen/Formulas.lean) and tied to the hand-written model by
 # `rfl` theorems, one per function and aliasing pattern (Gen/FormulaTies.lean)
-FORMULA_NOTE = ("translator T5 tools/go2lean/formulas.go (symbolic execution of the go/ssa form of 28 straight-line functions above the kernels: "
+FORMULA_NOTE = ("translator T5 tools/go2lean/formulas.go (symbolic execution of the go/ssa form of 43 functions above the kernels, incl. branches, constant-trip loops and fallible setters: "
                 "point formulas, representation changes, Negate/Absolute/Equal/SqrtRatio, Add/Subtract/Negate/MultByCofactor/Equal/bytesMontgomery) "
                 "and its table of primitive callees; the generated definitions are proved equal to the hand-written model by rfl for every aliasing pattern")
 for _pid in ("C01", "C02", "C06", "C11", "C12", "C13", "C16", "C17", "C05", "C04"):
@@ -275,3 +275,10 @@ PROPS["C03"]["text"] = (
     "only (C20_ct). (3) The SSA semantics is validated on every run by executing the regenerated SSA (ssarun) against the real code. A secret-dependent branch found "
     "by the checker is confirmed on the real code by comparing basic-block execution counts of two runs that differ only in secrets.")
 PROPS["C03"]["technique"] = "Lean 4 non-interference theorem for an SSA leakage semantics + kernel-evaluated checker over regenerated SSA + executed SSA-vs-code correspondence"
+
+# theorems of C11/C13/C14/C15 restated on the regenerated definitions
+for _pid in ("C11", "C13", "C14", "C15"):
+    PROPS[_pid]["modules"] = [m for m in PROPS[_pid]["modules"] if m != "EdVerif.Gen.FormulaTies"] + ["EdVerif.Gen.FormulaTies", "EdVerif.Props.Regenerated"]
+    PROPS[_pid]["needs_gen"] = sorted(set(list(PROPS[_pid].get("needs_gen", DEFAULT_NEEDS_GEN)) + ["formulas"]))
+    if FORMULA_NOTE not in PROPS[_pid].get("trusted_extra", []):
+        PROPS[_pid]["trusted_extra"] = list(PROPS[_pid].get("trusted_extra", [])) + [FORMULA_NOTE]
